@@ -61,7 +61,7 @@ class MF:
         self.enabled = True
 
 
-def check_readback(fs, model, label, restarted):
+def check_readback(fs, model, label, restarted, scribbled=False):
     for m in model:
         tag = ""
         if not m.enabled:
@@ -81,7 +81,22 @@ def check_readback(fs, model, label, restarted):
             return Failure(PROP, "C19.act" + tag, "%s: filter %r: supplied actions %r, read back %r" % (label, m.name, m.acts, ga), {})
         if gm != m.mt:
             return Failure(PROP, "C19.match" + tag, "%s: filter %r: supplied match type %r, read back %r" % (label, m.name, m.mt, gm), {})
+        scribble(gc)
+        scribble(ga)
+    if scribbled is False:
+        # what a caller does to the lists it was handed must not change what anybody reads back afterwards
+        return check_readback(fs, model, label + " (after the caller modified the returned lists)", restarted, scribbled=True)
     return None
+
+
+def scribble(x):
+    if isinstance(x, list):
+        for y in x:
+            scribble(y)
+        x.append("scribbled-by-caller")
+    elif isinstance(x, tuple):
+        for y in x:
+            scribble(y)
 
 
 def run(ch, config, res):
